@@ -18,7 +18,7 @@ EXPLANATION = (
     "exactly the node-valued fields of every concrete node class.")
 UNVERIFIED = [
     "each reachable node entered exactly once, in document order, with key/parent/path/ancestors describing its position",
-    "that the order of QUERY_DOCUMENT_KEYS entries is document order (no independent oracle in the code)",
+    "that the order of QUERY_DOCUMENT_KEYS entries is document order: decided only against the order in which the Parser methods parse the children (finite, syntactic comparison)",
     "the exact effect of edits: the edit application loop (node.pop/node[...] on the copied tuple) and the rebuilt node are waived/havocked",
     "parent[key] after returning from a child (needs a relation between frames and ancestors): waived",
     "that the input tree is never mutated is implied by the frame (no store to non-local objects is generated) but node classes are user extensible",
@@ -62,7 +62,116 @@ def extra_obligations(world, tier, seed):
                     "status": "discharged" if ok else "refuted", "backend": "finite",
                     "detail": f"keys={keys} fields={sorted(nodef)}",
                     "model": None if ok else {"kind": c.kind, "keys": keys, "node_fields": sorted(nodef)}})
+    out += parse_order_obligations(world)
     return out
+
+
+def parse_order_obligations(world):
+    """Document order oracle taken from the parser of the current tree: the children of a node are
+    in the source in the order in which the Parser method that builds the node parses them.  For
+    every `XNode(k=..., ...)` constructor call in a Parser method, each keyword whose value is
+    parsed (a call on self, or a local assigned from one) gets the source position of that parse;
+    the keys of QUERY_DOCUMENT_KEYS[kind] must be in that order.  Purely syntactic: two places of
+    the real code are compared, nothing is executed."""
+    import ast as pyast
+    from graphql.language import ast as gast
+    from graphql.language.ast import QUERY_DOCUMENT_KEYS
+    mod, tree, _ = world.load_module("graphql.language.parser")
+    cls = next(n for n in tree.body if isinstance(n, pyast.ClassDef) and n.name == "Parser")
+    out = []
+
+    def parses(e):
+        return any(isinstance(x, pyast.Call) and isinstance(x.func, pyast.Attribute)
+                   and isinstance(x.func.value, pyast.Name) and x.func.value.id == "self"
+                   for x in pyast.walk(e))
+    for fn in [n for n in cls.body if isinstance(n, pyast.FunctionDef)]:
+        when = {}
+        stmts = sorted((n for n in pyast.walk(fn) if isinstance(n, (pyast.Assign, pyast.AnnAssign))
+                        and getattr(n, "value", None) is not None),
+                       key=lambda n: (n.lineno, n.col_offset))
+        for st in stmts:
+            tgt = st.targets[0] if isinstance(st, pyast.Assign) else st.target
+            if not isinstance(tgt, pyast.Name) or tgt.id in when:
+                continue
+            if parses(st.value):
+                when[tgt.id] = (st.value.lineno, st.value.col_offset)
+            elif isinstance(st.value, pyast.Name) and st.value.id in when:
+                when[tgt.id] = when[st.value.id]
+        for call in [n for n in pyast.walk(fn) if isinstance(n, pyast.Call)
+                     and isinstance(n.func, pyast.Name) and n.func.id.endswith("Node")]:
+            ncls = getattr(gast, call.func.id, None)
+            kind = getattr(ncls, "kind", None)
+            keys = QUERY_DOCUMENT_KEYS.get(kind)
+            if not keys:
+                continue
+            timed = []
+            for kw in call.keywords:
+                if kw.arg not in keys:
+                    continue
+                v = kw.value
+                t = None
+                if isinstance(v, pyast.Name):
+                    t = when.get(v.id)
+                elif parses(v):
+                    sub = [x for x in pyast.walk(v) if isinstance(x, pyast.Call)
+                           and isinstance(x.func, pyast.Attribute)
+                           and isinstance(x.func.value, pyast.Name) and x.func.value.id == "self"]
+                    t = min((x.lineno, x.col_offset) for x in sub)
+                if t is not None:
+                    timed.append((t, kw.arg))
+            by_parse = [k for _, k in sorted(timed)]
+            by_table = [k for k in keys if k in by_parse]
+            ok = by_parse == by_table
+            out.append({"func": "graphql.language.ast.QUERY_DOCUMENT_KEYS", "kind": "FINITE",
+                        "text": f"{kind}: key order is the parse order of Parser.{fn.name} "
+                                f"({call.func.id})",
+                        "status": "discharged" if ok else "refuted", "backend": "finite",
+                        "detail": f"parse order {by_parse}, table order {by_table}",
+                        "model": None if ok else {"kind": kind, "parse_order": by_parse,
+                                                  "table_order": by_table}})
+    return out
+
+
+ORDER_REPLAY = r'''
+import json
+from graphql import parse, visit, Visitor
+from props.parser_replay import QUERY, SDL, EXTRA
+bad = None
+for text in [QUERY, SDL] + EXTRA:
+    for kw in ({}, {"experimental_fragment_arguments": True},
+               {"experimental_directives_on_directive_definitions": True}):
+        try:
+            doc = parse(text, **kw)
+        except Exception:
+            continue
+        seen = []
+        class V(Visitor):
+            def enter(self, node, *a):
+                if node.loc:
+                    seen.append((node.loc.start, node.kind))
+        visit(doc, V())
+        for a, b in zip(seen, seen[1:]):
+            if b[0] < a[0] and bad is None:
+                bad = {"input": text[:300], "options": kw,
+                       "observed": f"{b[1]} at offset {b[0]} entered after {a[1]} at offset {a[0]}"}
+print("REPLAY " + json.dumps(bad))
+'''
+
+
+def replay_extra(o):
+    """FINITE key-order obligations: traverse real documents and compare the order in which nodes
+    are entered with their source offsets (document order)."""
+    if "key order" not in o.get("text", ""):
+        return None
+    rc, outp = run_native(ORDER_REPLAY)
+    for line in outp.splitlines():
+        if line.startswith("REPLAY "):
+            import json
+            bad = json.loads(line[7:])
+            if bad:
+                return dict(bad, confirmed=True, entry="parse + visit")
+            return {"confirmed": False}
+    return {"confirmed": False, "error": outp[-500:]}
 
 
 def native_checks(tier, seed):
